@@ -30,13 +30,13 @@ import (
 var hookCounter int
 
 type entity struct {
-	id      int
-	gm      string
-	kind    string // var const func type hookvar
-	typ     string // basic type name, or type entity name for struct vars
-	tver    *tversion
-	want    [2]string // expected %T %v of the main probe
-	alive   bool
+	id    int
+	gm    string
+	kind  string // var const func type hookvar
+	typ   string // basic type name, or type entity name for struct vars
+	tver  *tversion
+	want  [2]string // expected %T %v of the main probe
+	alive bool
 }
 
 // one definition of a named struct type
@@ -49,12 +49,13 @@ type tversion struct {
 
 type gen struct {
 	afterStale bool // the previous input failed leaving statements in the code buffer
-	r      *vh.Rng
-	nextID int
-	ents   map[string]*entity // by gomacro name
-	order  []string
-	types  map[string]*tversion // current version per type name
-	nextU  int
+	stmtOnly   bool // the input being generated holds statements only (no var/const/func/type declaration)
+	r          *vh.Rng
+	nextID     int
+	ents       map[string]*entity // by gomacro name
+	order      []string
+	types      map[string]*tversion // current version per type name
+	nextU      int
 }
 
 type decl struct {
@@ -76,16 +77,18 @@ func cdeclOf(src string, hooks int, ok bool) string {
 }
 
 type input struct {
-	Src   string `json:"src"`
-	Fails bool   `json:"fails,omitempty"`
-	c14   []string
-	c15   []string
-	cc    []string // Verif.C15.Code.cdecl per declaration
-	apply []func()
-	decls []int
-	kinds []string
-	hooks int  // hook() calls the input executes if it compiles as a whole
-	stale bool // the failing declaration leaves statements in Comp.Code
+	Src          string `json:"src"`
+	Fails        bool   `json:"fails,omitempty"`
+	c14          []string
+	c15          []string
+	cc           []string // Verif.C15.Code.cdecl per declaration
+	apply        []func()
+	decls        []int
+	kinds        []string
+	badDefine    bool // the failing item is a short variable declaration (see defineBad)
+	nStmt, nDecl int  // valid items that are statements (:=, =, call) / declarations (var, const, func, type, method)
+	hooks        int  // hook() calls the input executes if it compiles as a whole
+	stale        bool // the failing declaration leaves statements in Comp.Code
 }
 
 type probe struct {
@@ -95,11 +98,11 @@ type probe struct {
 }
 
 type corpusHist struct {
-	Key    string   `json:"key"`
-	Steps  []input  `json:"steps"`
-	Probes []probe  `json:"probes"`
-	Known  bool     `json:"known,omitempty"`
-	Note   string   `json:"note,omitempty"`
+	Key    string  `json:"key"`
+	Steps  []input `json:"steps"`
+	Probes []probe `json:"probes"`
+	Known  bool    `json:"known,omitempty"`
+	Note   string  `json:"note,omitempty"`
 }
 
 func (g *gen) id() int { g.nextID++; return g.nextID }
@@ -222,12 +225,61 @@ func (g *gen) valueDecl(name string, kind string) *decl {
 		e := &entity{id: id, gm: name, kind: "type", tver: tv, want: [2]string{"main." + name, zero}}
 		return &decl{src: fmt.Sprintf("type %s struct { F%d %s }", name, tv.u, tv.ftype), c14: "SNop", c15: fmt.Sprintf("DType %d %d", id, tv.u),
 			apply: func() { g.set(e); g.types[name] = tv }}
+	case "define":
+		// top-level short variable declaration: a new variable, or the REDEFINITION of a live variable/constant/function
+		// by a variable of any basic type.  The input holds no ast.Decl for it (an ast.AssignStmt)
+		if name == "" {
+			name = fmt.Sprintf("d_%d", id)
+		}
+		t := pick(g.r, basics)
+		l, w := lit(g.r, t)
+		e := &entity{id: id, gm: name, kind: "var", typ: t, want: [2]string{t, w}}
+		return &decl{src: fmt.Sprintf("%s := %s", name, l), c14: fmt.Sprintf("SVar %d %s (EZ 0)", id, kindOfBasic(t)), apply: func() { g.set(e) }, declID: id}
 	case "hook":
 		name = fmt.Sprintf("h_%d", id)
 		e := &entity{id: id, gm: name, kind: "hookvar", typ: "int"}
 		return &decl{src: fmt.Sprintf("var %s = hook()", name), c14: fmt.Sprintf("SVar %d KInt1 (EZ 0)", id), c15: "DStmt", apply: func() { g.set(e) }, declID: id}
 	}
 	panic(kind)
+}
+
+// a top-level STATEMENT that is no declaration: assignment to a live variable of a basic type (its new value is what the
+// probes must show afterwards - or the old one when the input fails to compile) or a call of the compiled hook
+func (g *gen) stmtEntry(kind string) *decl {
+	switch kind {
+	case "assign":
+		var cands []*entity
+		for _, e := range g.live("var") {
+			if e.tver == nil {
+				cands = append(cands, e)
+			}
+		}
+		if len(cands) == 0 {
+			return nil
+		}
+		e := pick(g.r, cands)
+		l, w := lit(g.r, e.typ)
+		return &decl{src: fmt.Sprintf("%s = %s", e.gm, l), c14: fmt.Sprintf("SSet %d (EZ 0)", e.id), apply: func() { e.want[1] = w }}
+	case "hookstmt":
+		return &decl{src: "hook()", c14: "SNop", c15: "DStmt", apply: func() {}}
+	}
+	panic(kind)
+}
+
+// name declared / assigned by one generated top-level item ("" for a call statement), and its kind for the distribution
+func itemName(src string) (name, kind string) {
+	f := strings.Fields(strings.NewReplacer("(", " ", ")", " ").Replace(src))
+	switch {
+	case strings.HasPrefix(src, "func (t "):
+		return f[3], "method"
+	case strings.HasPrefix(src, "var ") || strings.HasPrefix(src, "const ") || strings.HasPrefix(src, "func ") || strings.HasPrefix(src, "type "):
+		return f[1], f[0]
+	case strings.Contains(src, " := "):
+		return f[0], "define"
+	case strings.Contains(src, " = "):
+		return f[0], "assign"
+	}
+	return "", "call-statement"
 }
 
 func (g *gen) typeNames() []string {
@@ -273,17 +325,42 @@ func (g *gen) randomDecl(allowMethod bool) *decl {
 	x := g.r.Intn(100)
 	redefine := g.r.Chance(2, 5)
 	kind := "var"
+	if g.stmtOnly {
+		// an input without any ast.Decl: short variable declarations (mostly redefinitions), assignments, calls
+		switch {
+		case x < 60:
+			kind = "define"
+		case x < 85:
+			if d := g.stmtEntry("assign"); d != nil {
+				return d
+			}
+			kind = "define"
+		default:
+			return g.stmtEntry("hookstmt")
+		}
+		x = 0
+	}
 	switch {
-	case x < 35:
+	case kind == "define":
+	case x < 30:
 		kind = "var"
+	case x < 38:
+		kind = "define"
 	case x < 50:
 		kind = "const"
-	case x < 65:
+	case x < 63:
 		kind = "func"
-	case x < 80:
+	case x < 76:
 		kind = "type"
-	case x < 90:
+	case x < 84:
 		kind = "hook"
+	case x < 88:
+		return g.stmtEntry("hookstmt")
+	case x < 93:
+		if d := g.stmtEntry("assign"); d != nil {
+			return d
+		}
+		kind = "var"
 	default:
 		if allowMethod {
 			if d := g.methodDecl(); d != nil {
@@ -362,12 +439,62 @@ func (g *gen) staleBad() (string, int) {
 	}
 }
 
+// a top-level short variable declaration that fails to compile AFTER it declared its first name(s): mostly the
+// REDEFINITION of a live variable / constant / function with a value of ANOTHER type (`x, y := "s", nil`); the failure is
+// an untyped nil or an undefined identifier among the later operands.  Contains no ast.Decl and no hook() call.
+func (g *gen) defineBad() string {
+	id := g.id()
+	name, old := fmt.Sprintf("x_%d", id), ""
+	var cands []*entity
+	for _, e := range g.live("") {
+		if e.kind == "var" || e.kind == "const" || e.kind == "func" || e.kind == "hookvar" {
+			cands = append(cands, e)
+		}
+	}
+	if len(cands) > 0 && g.r.Chance(4, 5) {
+		e := pick(g.r, cands)
+		name, old = e.gm, e.typ
+		if e.kind == "func" {
+			old = "" // any variable type differs from a function type
+		}
+	}
+	t := pick(g.r, basics)
+	for t == old {
+		t = pick(g.r, basics)
+	}
+	l, _ := lit(g.r, t)
+	l2, _ := lit(g.r, pick(g.r, basics))
+	switch g.r.Intn(5) {
+	case 0:
+		return fmt.Sprintf("%s, y_%d := %s, nil", name, id, l)
+	case 1:
+		return fmt.Sprintf("%s, y_%d := %s, undefined_%d", name, id, l, id)
+	case 2:
+		return fmt.Sprintf("%s, y_%d, w_%d := %s, %s, nil", name, id, id, l, l2)
+	case 3:
+		return fmt.Sprintf("y_%d, %s, w_%d := %s, %s, nil", id, name, id, l2, l)
+	default:
+		return fmt.Sprintf("%s, y_%d := %s, y_%d", name, id, l, id)
+	}
+}
+
 func (g *gen) input(fails bool) *input {
 	in := &input{Fails: fails}
 	n := 1 + g.r.Intn(4)
 	if !fails && g.r.Chance(1, 2) {
 		n = 1
 	}
+	// failing inputs: 1/4 consist of the failing item ALONE; 1/3 hold statements only (no ast.Decl anywhere in the input)
+	g.stmtOnly = false
+	if fails {
+		if g.r.Chance(1, 4) {
+			n = 0
+		}
+		g.stmtOnly = g.r.Chance(1, 3)
+	} else if g.r.Chance(1, 8) {
+		g.stmtOnly = true
+	}
+	defer func() { g.stmtOnly = false }()
 	// directly after an input that failed with statements left in the code buffer: mostly ONE var/const declaration
 	// (Comp.Compile -> compileDecl's Extra path), the rest any input
 	forceSingle := !fails && g.afterStale && g.r.Chance(3, 4)
@@ -384,6 +511,25 @@ func (g *gen) input(fails bool) *input {
 	typeDeclared := map[string]bool{}
 	for i := 0; i < n; i++ {
 		if i == badAt {
+			if g.stmtOnly || g.r.Chance(1, 4) {
+				var s string
+				k := 0
+				if g.r.Chance(2, 3) {
+					s = g.defineBad()
+				} else {
+					s, k = g.staleBad()
+				}
+				srcs = append(srcs, s)
+				in.c14 = append(in.c14, "SBad")
+				in.c15 = append(in.c15, "DBad")
+				in.cc = append(in.cc, cdeclOf(s, k, false))
+				in.kinds = append(in.kinds, "bad")
+				in.stale = true
+				if k == 0 {
+					in.badDefine = true
+				}
+				continue
+			}
 			if g.r.Chance(2, 5) {
 				s, k := g.staleBad()
 				srcs = append(srcs, s)
@@ -412,7 +558,10 @@ func (g *gen) input(fails bool) *input {
 			} else {
 				d = g.randomDecl(!fails)
 			}
-			nm := strings.Fields(strings.NewReplacer("(", " ", ")", " ").Replace(d.src))[1]
+			nm, _ := itemName(d.src)
+			if nm == "" {
+				break // a call statement: declares nothing
+			}
 			// one declaration per name and input; a variable of a type (re)declared in the same input would
 			// depend on the order chosen by the dependency sorter: not generated
 			if used[nm] || (strings.Contains(d.src, "{F") && anyIn(typeDeclared, d.src)) || (strings.HasPrefix(d.src, "func (t ") && anyIn(typeDeclared, d.src)) {
@@ -455,7 +604,16 @@ func (g *gen) input(fails bool) *input {
 		case d.c15 == "DStmt":
 			in.kinds = append(in.kinds, "hook-statement")
 		default:
-			in.kinds = append(in.kinds, strings.Fields(d.src)[0])
+			_, k := itemName(d.src)
+			in.kinds = append(in.kinds, k)
+		}
+		if _, k := itemName(d.src); k == "define" || k == "assign" || k == "call-statement" {
+			in.nStmt++
+			if fails {
+				in.stale = true // code of a valid statement is in the buffer when a later item fails
+			}
+		} else {
+			in.nDecl++
 		}
 	}
 	in.Src = strings.Join(srcs, "; ")
@@ -589,7 +747,10 @@ func main() {
 		"(x, y := hook(), nil; for/if/switch/block with a hook() init statement and an undefined call in the body; also redefining a live variable), and the input after such a failure is (3/4) exactly ONE var/const declaration "+
 		"(plain, of a named type, = hook(), or a redefinition: Comp.Compile -> compileDecl's single-spec path), else any input. Oracle: snapshot (%T,%v or error) of every live name's probes (v, v.F<k>, v.M(), k, f(), T{}) before vs after: "+
 		"identical after a failed input + compiled hook counter unchanged; after a successful input the counter moved by exactly the input's own hook() calls (no code of an earlier failed input runs later) and only the probes of the names it declares change, to the generator's values "+
-		"(variables of the previous definition of a redefined type keep type, field, methods, value). A method declared in a failing input is the known-finding class (not generated; corpus replays it). "+
+		"(variables of the previous definition of a redefined type keep type, field, methods, value). Since the C15 strengthening: declarations also come as top-level STATEMENTS - short variable declarations `x := lit` (new, or redefining a live variable/constant/function with any basic type), assignments `v = lit` to live variables and hook() call statements - "+
+		"in valid and in failing inputs; 1/4 of the failing inputs are the failing item alone, 1/3 hold statements only (no ast.Decl in the whole input), and the failing item is then (2/3) a short variable declaration that REDEFINES a live name with another type and fails on a later operand "+
+		"(`x, y := \"s\", nil`, `x, y := 1.5, undefined`, `y, x, w := 1, true, nil`, `x, y := 2, y`). "+
+		"A method declared in a failing input is the known-finding class (not generated; corpus replays it). "+
 		"corpus/C15/*.json (exact histories of DESIGN section 7 #10, #11 and of the findings repaired by C15-1/C15-2) run first. non-trivial: the history contains >=1 failing input that follows >=3 live names and >=1 redefinition; distinct by SHA-256 of the sources")
 	wd := vh.NewWatchdog(rep, 10*time.Minute) // generous: go build of the oracle / the first fast.New() take minutes on a loaded machine
 
@@ -712,6 +873,22 @@ func main() {
 			if in.stale {
 				rep.Dist("failing-input:leaves-code-in-buffer")
 			}
+			if fails {
+				if in.badDefine {
+					rep.Dist("failing-input:bad-item-is-short-var-decl")
+					for _, e := range g.live("") {
+						if strings.Contains(in.Src, e.gm+",") {
+							rep.Dist("failing-input:bad-short-var-decl-redefines-live-" + e.kind)
+						}
+					}
+				}
+				if in.nDecl == 0 && in.stale {
+					rep.Dist("failing-input:statements-only(no-ast.Decl)")
+				}
+				if in.nDecl+in.nStmt == 0 {
+					rep.Dist("failing-input:failing-item-alone")
+				}
+			}
 			if status == 0 && staleBefore && !probedSince {
 				rep.Dist(fmt.Sprintf("directly-after-stale-buffer:%d-decl-input:first-is-%s", len(in.kinds), in.kinds[0]))
 			}
@@ -732,11 +909,11 @@ func main() {
 			declared := map[string]bool{}
 			if status == 0 {
 				for _, s := range strings.Split(in.Src, "; ") {
-					f := strings.Fields(strings.NewReplacer("(", " ", ")", " ").Replace(s))
-					if strings.HasPrefix(s, "func (t ") {
-						declared["method:"+f[3]] = true
-					} else {
-						declared[f[1]] = true
+					switch nm, k := itemName(s); {
+					case k == "method":
+						declared["method:"+nm] = true
+					case nm != "":
+						declared[nm] = true
 					}
 				}
 			}
